@@ -20,8 +20,20 @@
 // After the callers of a run have returned, every statement they used is executed once more on its host
 // with a background context (liveness probe: an in-flight entry nobody completes blocks exactly these).
 //
+// Metadata, failure kinds (meta.go): P and X carry, next to the prepared id, the byte widths of the bind columns
+// declared / of the values found in the frame (one token for the specification); a query call checks its Iter's
+// column against the PREPARE whose id it executed; a PREPARE fails as ERROR frame / undecodable frame / answer of
+// another kind / never answered (request timeout; own Sessions, judged at the end of the tier) / by the server
+// closing the host's connections (connectionLost: K then also stands for "the connection serving the call was
+// closed", the licence to return an abort error). Batches may carry an entry without values (plain statement, not
+// prepared: absent from S, checked at the server); an entry written <key>/<1000+n> binds n values one of which no
+// column type accepts (value error expected, nothing sent).
+// Stepped runs (stepped): every PREPARE / EXECUTE / BATCH answer is held at the server and released - like the
+// starts and cancellations of the executions - by a schedule word, one letter at a time.
+//
 // The history is one `trace` op; the Lean specification `Obs` (lean/Model/Prepare.lean) judges it.
-// Decisions depend on the ORDER of events only. Delays are schedule perturbation, never part of a verdict;
+// Decisions depend on the ORDER of events only (the one exception is declared: a PREPARE that is never answered
+// fails by the Session's 2.5 s request timeout; a run in which that timeout hits anything else is not judged). Delays are schedule perturbation, never part of a verdict;
 // the watchdog (25 s) counts only together with a goroutine dump that shows a goroutine blocked in gocql.
 package main
 
@@ -364,14 +376,6 @@ func hexToks(ids, sigs [][]byte) string {
 			sg = sigs[i]
 		}
 		p = append(p, vh.Hex(id)+"/"+vh.Hex(sg))
-	}
-	return strings.Join(p, ",")
-}
-
-func hexIDs(ids [][]byte) string {
-	var p []string
-	for _, id := range ids {
-		p = append(p, vh.Hex(id))
 	}
 	return strings.Join(p, ",")
 }
